@@ -38,12 +38,13 @@ def load_known():
     return json.load(open(path)).get("findings", [])
 
 
-def run_replay(prop, hints, out_path):
+def run_replay(prop, hints, out_path, unit=None):
     fam = P.PROPS[prop].get("replay")
-    if fam != "call":
+    if fam is None:
         return None
+    script = "invfam.py" if (unit in P.INV_UNITS or fam == "inv") else "callfam.py"
     env = dict(os.environ, PYTHONPATH=REPO)
-    cmd = ["/venv/bin/python", os.path.join(HERE, "replay", "callfam.py"), "--search", "--hints", ",".join(hints), "--out", out_path]
+    cmd = ["/venv/bin/python", os.path.join(HERE, "replay", script), "--search", "--hints", ",".join(hints), "--out", out_path]
     try:
         subprocess.run(cmd, env=env, cwd=os.path.join(HERE, "replay"), capture_output=True, text=True, timeout=300)
         return json.load(open(out_path))
@@ -121,12 +122,13 @@ def main(argv):
             continue
         statuses = {r["status"] for _, _, r in items}
         hints = next((h for pat, h in P.REPLAY_HINTS if pat in gname), []) + cfg.get("hints", [])
-        key = tuple(hints)
+        uname = items[0][0].spec.name()
+        key = tuple(hints) + (uname in P.INV_UNITS,)
         if key not in replay_cache:
             h = hashlib.sha256((prop + gname).encode()).hexdigest()[:10]
             replay_cache[key] = (os.path.join("replays", "%s-%s.json" % (prop, h)), None)
             path = os.path.join(HERE, replay_cache[key][0])
-            replay_cache[key] = (replay_cache[key][0], run_replay(prop, hints, path))
+            replay_cache[key] = (replay_cache[key][0], run_replay(prop, hints, path, uname))
         rpath, rres = replay_cache[key]
         reproduced = bool(rres and rres.get("found"))
         if "refuted" not in statuses and not reproduced:
@@ -136,7 +138,7 @@ def main(argv):
         doc = {"property": prop, "failed_obligation": o.name, "obligation_class": gname, "instances": len(items),
                "unit": rep.unit.describe(), "path": o.meta.get("path"), "solver": {k2: v for k2, v in r.items() if k2 != "model"},
                "goal": str(o.goal)[:3000], "replay": rres if rres is not None else {"found": False, "reason": "no replay family for this property"},
-               "how_to_replay": "PYTHONPATH=%s /venv/bin/python %s/replay/callfam.py --scenario <this file>" % (REPO, HERE)}
+               "how_to_replay": "PYTHONPATH=%s /venv/bin/python %s/replay/%s --scenario <this file>" % (REPO, HERE, "invfam.py" if uname in P.INV_UNITS else "callfam.py")}
         if reproduced:
             doc["program"] = rres.get("program")
         h = hashlib.sha256((prop + gname).encode()).hexdigest()[:10]
